@@ -6,16 +6,16 @@ import os
 VERIF = os.path.dirname(os.path.dirname(os.path.abspath(__file__)))
 
 TRUST = ("Trusted: rustc's name/type resolution and HIR/MIR (nightly 1.97), the fact extractor in driver/, the value-numbering "
-         "engine in rules/terms.py, the Boolean normal form in rules/setalg.py, and the library assumptions L1-L8 of DESIGN.md section 4. ")
+         "engine in rules/terms.py, the Boolean normal form in rules/setalg.py, and the library assumptions L1-L10 of DESIGN.md section 4. ")
 
 CLAIMED = {
     "C01": dict(
         technique="static analysis: value-numbering summaries of the resolved HIR, partial evaluation of eval_node per operator shape, Boolean-normalised comparison with the operators' defining equations",
-        text="Decides necessary structural conditions of C01 on every path of the code, for all inputs at once: eval_node (partially evaluated for each of the 22 plain operator shapes) computes the operator's defining equation over its recursive results; recursive calls pass graph, steady states and context through; the comparator / projection primitives have their defining shape; fixed-point loops run to stabilisation. It does not decide semantic equivalence with HCTL satisfaction, which no static argument in reach can.",
+        text="Decides necessary structural conditions of C01 on every path of the code, for all inputs at once: eval_node (partially evaluated for each of the plain operator shapes, the weak untils included, and for special operands) computes the operator's defining equation over its recursive results; recursive calls pass graph, steady states and context through; the comparator / projection primitives have their defining shape; fixed-point loops run to stabilisation. It does not decide semantic equivalence with HCTL satisfaction, which no static argument in reach can.",
         note=TRUST + "Not decided: that the graph library's pre-images implement the asynchronous semantics; termination.", ref="5/C01"),
     "C11": dict(
-        technique="static analysis: value-numbering summaries of the evaluators compared (modulo Boolean algebra and fixed-point scheme normalisation) with the fixed-point characterisations; polarity inference; loop-protocol rule",
-        text="Every temporal evaluator that eval_node dispatches to (and the unused classical variants) equals its fixed-point characterisation from the property statement, each operand occurs with the operator's polarity, and every fixed-point loop exits only on stabilisation (classical) or after a full sweep without update (saturation). Holds for all argument sets and all networks because it is a statement about the code's shape; the laws themselves then follow from L1/L2 (library set algebra and monotone pre-images), which are assumed.",
+        technique="static analysis: value-numbering summaries of the evaluators compared (modulo Boolean algebra and fixed-point scheme normalisation) with the fixed-point characterisations; polarity inference; loop-protocol rule; partial evaluation of eval_node for every temporal operator (operands and steady states handed to the evaluator)",
+        text="Every temporal evaluator that eval_node dispatches to (and the unused classical variants) equals its fixed-point characterisation from the property statement, each operand occurs with the operator's polarity, and every fixed-point loop exits only on stabilisation (classical) or after a full sweep without update (saturation); eval_node applies each evaluator to its operands' results and to the steady-state set it received. Holds for all argument sets and all networks because it is a statement about the code's shape; the laws themselves then follow from L1/L2 (library set algebra and monotone pre-images), which are assumed.",
         note=TRUST + "Not decided: the library's pre-image semantics (L2), convergence on benchmark-size models.", ref="5/C11"),
     "C13": dict(
         technique="static analysis: value-numbering summaries of eval_ew / eval_aw and of eval_node's EW/AW arms compared with the two defining equations of weak until, Boolean-normalised",
@@ -43,7 +43,7 @@ CLAIMED["C03"] = dict(
     note=TRUST + "L3/L4 (unit sets are products not constraining state variables) are assumed.", ref="5/C03")
 CLAIMED["C04"] = dict(
     technique="static analysis: may-token path analysis for scope pairing; Boolean implication between path conditions and the cache admission guard (truth tables over canonical atoms); sibling comparison of the writer's and reader's key recipe; call-site rules for the batch drivers; type-resolved hash-iteration classification",
-    text="Decides necessary conditions of history independence on every path: the scope entry is removed on every exit of eval_node; writer and reader build the cache key by the same recipe and all cache operations use that one key; stores and hits happen only when the key names every restriction in force and hits are intersected with the current unit set; only fresh results are stored, eviction happens only at counter zero and never for wild-cards, one decrement per hit; on a hit the set is renamed from the stored to the current name of the same canonical variable; batch drivers build one context from the list they evaluate in order; hash-container iteration feeds only order-insensitive uses. Equality of sets between batch and single evaluation is not decided.",
+    text="Decides necessary conditions of history independence on every path: the scope entry is removed on every exit of eval_node and never touched by a jump; writer and reader build the cache key by the same recipe and all cache operations use that one key; stores and hits happen only when the key names every restriction in force and hits are intersected with the current unit set; only fresh results are stored, eviction happens only at counter zero and never for wild-cards, one decrement per hit; on a hit the set is renamed from the stored to the current name of the same canonical variable, by a renaming primitive that has its defining equation (identity only for equal names); batch drivers build one context from the list they evaluate in order; hash-container iteration feeds only order-insensitive uses. Equality of sets between batch and single evaluation is not decided.",
     note=TRUST + "Assumes canonical text identifies sub-formulae up to renaming (C09, not decided).", ref="5/C04")
 CLAIMED["C10"] = dict(
     technique="static analysis: table agreement between the wild-card cache key template and the Display template; partial evaluation of eval_node for the wild-card terminal; cache-protocol implications; sibling comparison of the plain and extended pipelines",
@@ -74,7 +74,7 @@ CLAIMED["C14"] = dict(
 
 CLAIMED["C15"] = dict(
     technique="static analysis: sibling comparison of the value-numbering terms of each sanitising entry point and its dirty sibling (whole-pipeline inlining); term equations for the three sanitize_* functions; name-only indexing rule",
-    text="Decides: every sanitising entry point returns exactly map(sanitize_colored_vertices(graph, .)) over the results of its dirty sibling run with the same arguments (one-to-one, in order, no raw result escapes, nothing else is done); each sanitize_* function is a transfer of the BDD from the graph's context into that graph's canonical context, wrapped with the same canonical context; the symbolic copy index depends on the variable name only and every network variable gets the same number of copies. Equality of the sets and independence of the number of spare variable sets are not decided (they rest on C03 and L7).",
+    text="Decides: every sanitising entry point returns exactly map(sanitize_colored_vertices(graph, .)) over the results of its dirty sibling run with the same arguments (one-to-one, in order, no raw result escapes, nothing else is done); each sanitize_* function is a transfer of the BDD from the graph's context into that graph's canonical context, wrapped with the same canonical context; the symbolic copy index depends on the variable name only and every network variable gets the same number of copies; the support check is made on the validated (minimised) tree that is evaluated, and canonical names are handed out by nesting depth and given back on scope exit (the validator's naming and no-leaking-state rules). Equality of the sets and independence of the number of spare variable sets are not decided (they rest on C03 and L7).",
     note=TRUST, ref="5/C15")
 CLAIMED["C16"] = dict(
     technique="static analysis: effect trace of the zip writer (ordered operations, loops included) compared with the expected archive layout; writer / reader agreement of entry suffix, serialiser and parser; evaluation of the reader's extension filter for concrete extensions; provenance of label index and evaluated tree in analyse_formulae",
